@@ -79,7 +79,9 @@ def make_args(core, f, ptr_sizes, concrete=None, fix=None):
             w = core.type_bits(ty)
             spec.append(dict(name=base, bits=w))
             if concrete is not None: args.append(core.bv(concrete[k]['val'], w))
-            elif fix and nm.strip('%') in fix: args.append(core.bv(fix[nm.strip('%')], w)); spec[-1]['fixed'] = fix[nm.strip('%')]
+            elif fix and (nm.strip('%') in fix or 'arg%d' % k in fix):   # by name, or by position (LLVM may drop a parameter's name)
+                fv = fix[nm.strip('%')] if nm.strip('%') in fix else fix['arg%d' % k]
+                args.append(core.bv(fv, w)); spec[-1]['fixed'] = fv
             else: args.append(z3.BitVec(base, w))
     return args, spec, mem_init
 
